@@ -275,6 +275,9 @@ pub struct Res {
     pub logs: Vec<LogMsg>,
     pub fs_calls: Vec<FsCall>,
     pub micros: u64,
+    /// the returned CSS `String` did not hold valid UTF-8 (it is transported lossily)
+    #[serde(default)]
+    pub invalid_utf8: bool,
 }
 
 impl Res {
@@ -284,6 +287,7 @@ impl Res {
             logs: vec![],
             fs_calls: vec![],
             micros: 0,
+            invalid_utf8: false,
         }
     }
 }
